@@ -59,6 +59,7 @@ let tokens_of (input : n list) (max : int) : string =
       | PHang -> String.concat ";" (List.rev ("hang" :: acc))
       | PPanic -> String.concat ";" (List.rev ("panic" :: acc))
       | PDeadlock -> String.concat ";" (List.rev ("deadlock" :: acc))
+      | PBudget -> String.concat ";" (List.rev ("hang" :: acc))
   in
   go (new_lexer input) [] 0
 
